@@ -9,8 +9,8 @@ COMMON_NOTE = (
     "no native_decide, no sorry); the Lean statements in lean/IoosQc/Props are a reading of properties.jsonl; the model in "
     "lean/IoosQc/Model is hand-written and tied to /repo only by the differential correspondence run (generators, "
     "canonicalisation in harness/sut.py, Fraction/JSON wire, Lean driver decoding); float64 is treated as exact on the dyadic "
-    "input lattice (DESIGN.md §3); numpy/pandas/xarray/geographiclib behaviour is modelled, not verified. C01, C04, C19, C20 also "
-    "have source pins: literal tables read from /repo by harness/extract.py (Python ast) and checked by the kernel against "
+    "input lattice (DESIGN.md §3); numpy/pandas/xarray/geographiclib behaviour is modelled, not verified. C01, C03, C04, C09, C11, C12, C14, C19, C20 also "
+    "have source pins: literal tables and signature defaults read from /repo by harness/extract.py (Python ast) and checked by the kernel against "
     "IoosQc/Theorems/SourcePin.lean on every run."
 )
 
